@@ -900,3 +900,49 @@ pub fn parse_blocks(data: &[u8]) -> (Vec<u8>, Vec<LogBlock>) {
     }
     (pre, blocks)
 }
+
+/// Verify that `data` is exactly a concatenation, in any order, of
+/// `header(stream,target,command) ++ bytes` for every non-empty expected log and
+/// nothing else. Guided by the expectation, so logs without a final newline and
+/// binary logs are handled.
+pub fn verify_show(
+    data: &[u8],
+    expected: &BTreeMap<(String, String, String), Vec<u8>>,
+) -> Result<(), (String, String)> {
+    let mut pos = 0;
+    let mut seen: std::collections::BTreeSet<(String, String, String)> = Default::default();
+    while pos < data.len() {
+        let end = data[pos..].iter().position(|&b| b == b'\n').map(|i| pos + i + 1).unwrap_or(data.len());
+        let Some(key) = parse_header(&data[pos..end]) else {
+            return Err((
+                "no-header".into(),
+                format!("expected a header at offset {}, found {:?}", pos, String::from_utf8_lossy(&data[pos..end.min(pos + 80)])),
+            ));
+        };
+        pos = end;
+        let Some(want) = expected.get(&key) else {
+            return Err(("unexpected-header".into(), format!("header for {:?}, which has no (non-empty) log", key)));
+        };
+        if want.is_empty() {
+            return Err(("empty-header".into(), format!("header printed for the empty log {:?}", key)));
+        }
+        if !seen.insert(key.clone()) {
+            return Err(("duplicate-header".into(), format!("second header for {:?}", key)));
+        }
+        if data.len() < pos + want.len() || &data[pos..pos + want.len()] != want.as_slice() {
+            let avail = &data[pos..(pos + want.len()).min(data.len())];
+            let first = want.iter().zip(avail.iter()).position(|(a, b)| a != b).unwrap_or(avail.len());
+            return Err((
+                "bytes-differ".into(),
+                format!("block {:?}: printed bytes differ from the log at offset {} of {}", key, first, want.len()),
+            ));
+        }
+        pos += want.len();
+    }
+    for (k, v) in expected {
+        if !v.is_empty() && !seen.contains(k) {
+            return Err(("missing-block".into(), format!("no block for the non-empty log {:?}", k)));
+        }
+    }
+    Ok(())
+}
